@@ -165,6 +165,7 @@ class Interp:
         self.builders = {}                # inv -> adapter (for 'late' calls)
         self.nstmts = 0
         self.invalid = None
+        self.injected_calls = []
 
     # ------------------------------------------------------------------
     def wrap(self, builder):
@@ -317,6 +318,7 @@ class Interp:
             fr.obs.append([kind, rel, norm_answer(kind, ans, sb)])
         elif op == 'bf':
             _, rel, fid, args, kwargs, cmp, catch = st[:7]
+            args, kwargs = unjson(args), unjson(kwargs)
             spelling = st[7] if len(st) > 7 else None
             path = sb.p(rel)
             func = self.make_func(fid)
@@ -331,6 +333,7 @@ class Interp:
             except CrashError:
                 raise
             except Exception as e:
+                self.note_injected(e, 'f', path, None, None, None)
                 self.after_bf(fr, path, False, e, n_before)
                 if not catch or getattr(e, '_fbsim_fatal', False):
                     raise
@@ -341,6 +344,7 @@ class Interp:
             fr.obs.append(['bf', rel, typed_repr(r)])
         elif op == 'sb':
             _, fid, args, kwargs, catch = st[:5]
+            args, kwargs = unjson(args), unjson(kwargs)
             func = self.make_func(fid)
             fname = self.funcs[fid]['name']
             try:
@@ -348,6 +352,7 @@ class Interp:
             except CrashError:
                 raise
             except Exception as e:
+                self.note_injected(e, 's', None, fname, args, kwargs)
                 if not catch or getattr(e, '_fbsim_fatal', False):
                     raise
                 fr.obs.append(['sb', fid, '!' + type(e).__name__])
@@ -431,6 +436,30 @@ class Interp:
             self.written.pop(path, None)
         else:
             self.mb.unlink(path)
+
+    def note_injected(self, e, kind, path, fname, args, kwargs):
+        """Remember the innermost API call at which an injected internal
+        OSError surfaced (real mode)."""
+        if self.mode != 'real':
+            return
+        x, n, inj = e, 0, False
+        while x is not None and n < 10:
+            if getattr(x, '_fbsim_injected', False):
+                inj = True
+                break
+            x = x.__cause__ or x.__context__
+            n += 1
+        if not inj or getattr(x, '_fbsim_seen', False):
+            return
+        x._fbsim_seen = True
+        from .model import file_key, sub_key
+        from .util import jround
+        if kind == 'f':
+            key = file_key(path)
+        else:
+            key = sub_key(fname, jround(list(unjson(args))),
+                          jround(dict(unjson(kwargs))))
+        self.injected_calls.append((key, type(e)))
 
     def after_bf(self, fr, path, ok, exc, n_before):
         """Physical post-conditions of build_file (C10), real mode only."""
